@@ -119,11 +119,21 @@ fn block(b: &mut Body, ctx: &mut Ctx, callee: Option<(usize, usize, u64)>) {
 }
 
 fn fault(b: &mut Body, ctx: &mut Ctx, f: Fault, in_call: bool) {
-    let store = |b: &mut Body, ctx: &mut Ctx| match ctx.rng.below(4) {
+    let store = |b: &mut Body, ctx: &mut Ctx| match ctx.rng.below(6) {
         0 => { b.code.push(op::movi(R_VAL, 0xAB)); b.code.push(op::sw(R_PTR, R_VAL, 0)); }
         1 => { b.code.push(op::movi(R_VAL, 0xAB)); b.code.push(op::sb(R_PTR, R_VAL, 0)); }
         2 => b.code.push(op::mcli(R_PTR, 8)),
-        _ => { b.code.push(op::movi(R_LEN, 8)); b.code.push(op::mcl(R_PTR, R_LEN)); }
+        3 => { b.code.push(op::movi(R_LEN, 8)); b.code.push(op::mcl(R_PTR, R_LEN)); }
+        4 => {
+            // copy from owned memory (when the frame has 8 bytes of stack) or from the code into the target
+            if b.frame >= 8 { b.code.push(op::subi(R_SRC, RegId::SP, 8)); } else { b.code.push(op::move_(R_SRC, RegId::IS)); }
+            b.code.push(op::mcpi(R_PTR, R_SRC, 8));
+        }
+        _ => {
+            if b.frame >= 8 { b.code.push(op::subi(R_SRC, RegId::SP, 8)); } else { b.code.push(op::move_(R_SRC, RegId::IS)); }
+            b.code.push(op::movi(R_LEN, 8));
+            b.code.push(op::mcp(R_PTR, R_SRC, R_LEN));
+        }
     };
     match f {
         Fault::None => {}
@@ -222,8 +232,38 @@ fn run_program(ctx: &mut Ctx, idx: u64) {
             ctx.count(&format!("store.d{depth}.{outcome}"));
             ctx.emit(&line, &outcome);
         }
+        let copy = match Instruction::try_from(raw) {
+            Ok(Instruction::MCP(i)) => { let (a, b2, c) = i.unpack(); Some((regs[a.to_u8() as usize], regs[b2.to_u8() as usize], regs[c.to_u8() as usize])) }
+            Ok(Instruction::MCPI(i)) => { let (a, b2, imm) = i.unpack(); Some((regs[a.to_u8() as usize], regs[b2.to_u8() as usize], imm.to_u16() as u64)) }
+            _ => None,
+        };
+        if let Some((dst, src, len)) = copy {
+            let sl = before.0.len() as u64;
+            let line = format!("mc {sl} {hp_b} {ssp_b} {sp_b} {hp_b} {prev_b} {dst} {src} {len}");
+            let own = Own { ssp: ssp_b, sp: sp_b, hp: hp_b, prev_hp: prev_b };
+            let m = VM_MAX_RAM as u128;
+            let vf = |a: u64| -> Option<&'static str> {
+                if a as u128 > m || len as u128 > m || a as u128 + len as u128 > m { Some("MemoryOverflow") }
+                else if !((a + len) <= sl || a >= hp_b) { Some("UninitalizedMemoryAccess") } else { None }
+            };
+            let exp = if let Some(e) = vf(dst) { e } else if let Some(e) = vf(src) { e }
+                else if len > 0 && dst < src + len && src < dst + len { "MemoryWriteOverlap" }
+                else if !spec_owned(&own, dst, dst + len) { "MemoryOwnership" } else { "ok" };
+            if outcome != exp { ctx.oracle_fail("program-copy-outcome", &format!("{}; at step {steps}: {name} {line}", replay()), &format!("implementation {outcome}, specification {exp}")); }
+            ctx.count(&format!("copy.d{depth}.{outcome}"));
+            ctx.emit(&line, &outcome);
+        }
+        let store = store.map(|_| ()).or(copy.map(|_| ()));
         if finished {
-            if let StepEnd::Finished(Some(r)) = &st { ctx.count(&format!("end.panic.{r}")); } else { ctx.count("end.return"); }
+            if let StepEnd::Finished(Some(r)) = &st {
+                ctx.count(&format!("end.panic.{r}"));
+                // every generated block is valid: only a planted faulting store (checked above against the
+                // specification of the owner-checked write) may panic
+                if store.is_none() {
+                    ctx.oracle_fail(&format!("unexpected-panic-{name}"), &format!("{}; at step {steps}", replay()),
+                        &format!("{name} panicked with {r} (ssp={ssp_b} sp={sp_b} hp={hp_b} prev_hp={prev_b} fp={fp_b})"));
+                }
+            } else { ctx.count("end.return"); }
             break; // the VM finalises outputs after the last instruction; not an instruction's write
         }
         let ra: Vec<u64> = vm.registers().to_vec();
@@ -258,5 +298,5 @@ fn run_program(ctx: &mut Ctx, idx: u64) {
 
 pub fn run(ctx: &mut Ctx) {
     let _ = GTFArgs::ScriptData;
-    for i in 0..ctx.n(150, 2500) { run_program(ctx, i); }
+    for i in 0..ctx.n(800, 12000) { run_program(ctx, i); }
 }
